@@ -244,6 +244,15 @@ class Headers:
                 added += self._write(height, chunk)
             if bail:
                 break
+        end = start + added
+        if added and end < len(self) and (end // 1000) * 1000 not in self.checkpoints:
+            # what was stored beyond the batch belongs to the chain it replaced unless it links to the batch
+            following = self.deserialize(end, self._read(end))
+            if following['prev_block_hash'] != self.hash_header(self._read(end - 1)):
+                self.io.seek(end * self.header_size, os.SEEK_SET)
+                self.io.truncate()
+                self.io.flush()
+                self._size = end
         return added
 
     def _write(self, height, verified_chunk):
